@@ -448,7 +448,8 @@ func genC03(c *Cfg, emit func([]string)) {
 						add(t)
 					}
 					// re-target: same bytes sent to another chaincode / channel
-					for _, env := range [][2]string{{"other", "vt"}, {"vt", "other"}, {"v", "tvt"}, {"vtv", "t"}} {
+					for _, env := range [][2]string{{"other", "vt"}, {"vt", "other"}, {"v", "tvt"}, {"vtv", "t"},
+						{"VT", "vt"}, {"vt", "VT"}, {"Vt", "vT"}, {"vt_", "vt"}, {"vt", "vt2"}, {"ｖｔ", "vt"}} {
 						y := mk(route, kt, nsign, ab[0], ab[1])
 						t := clone(y.r, "retarget")
 						t.envcc, t.envch = env[0], env[1]
@@ -459,6 +460,6 @@ func genC03(c *Cfg, emit func([]string)) {
 		}
 	}
 	flush()
-	c.Rule = fmt.Sprintf("%d requests: correctly signed requests of a 2-argument sender-requiring method (3 value pairs, 1 and 2 signers, 3 routes%s) mutated by every operator at every covered field position (request id, chaincode, channel, both method arguments, nonce, each signer key): substitute same/different length, truncate, extend, swap neighbours, move 1..k bytes across each adjacent boundary (both directions; for chaincode/channel names the peer is deployed under the shifted names), drop, duplicate, re-order signers, other function of the same shape, re-target to other chaincode/channel names incl. pairs with equal concatenation; untouched requests as positive controls. non-trivial = every request; distinct = sha256", count, map[bool]string{true: ", 3 key types", false: ""}[c.Thorough()])
+	c.Rule = fmt.Sprintf("%d requests: correctly signed requests of a 2-argument sender-requiring method (3 value pairs, 1 and 2 signers, 3 routes%s) mutated by every operator at every covered field position (request id, chaincode, channel, both method arguments, nonce, each signer key): substitute same/different length, truncate, extend, swap neighbours, move 1..k bytes across each adjacent boundary (both directions; for chaincode/channel names the peer is deployed under the shifted names), drop, duplicate, re-order signers, other function of the same shape, re-target to other chaincode/channel names incl. pairs with equal concatenation and names differing only in letter case, a suffix or Unicode width; untouched requests as positive controls. non-trivial = every request; distinct = sha256", count, map[bool]string{true: ", 3 key types", false: ""}[c.Thorough()])
 	c.Extra = map[string]any{"requests": count}
 }
